@@ -119,12 +119,14 @@ def _select_unit(grid):
             rs = random.Random(7)
             bad = []
             # complete meshes in several orders, with extra off-grid points interleaved
-            for variant in range(4):
+            for variant in range(8):
                 idx = list(range(n))
                 rs.shuffle(idx)
                 pts = full[idx]
                 if variant >= 2:
-                    extra = (full[: max(1, n // 2)] + 0.5 / (npg * 3.0))
+                    # off-grid points on either side of the mesh points: above, below, above in one direction and below in another, barely off (1e-6)
+                    off = [0.5 / (npg * 3.0), 0.5 / (npg * 3.0), -0.5 / (npg * 3.0), -0.5 / (npg * 3.0), rnp.array([1.0, -1.0, 0.0]) * 0.5 / (npg * 3.0), rnp.array([0.0, 0.0, -1e-6])][variant - 2]
+                    extra = full[: max(1, n // 2)] + off
                     pts = rnp.vstack([pts[: n // 2], extra, pts[n // 2:]])
                 st, sel = run(pts)
                 if st != "ok" or not good_selection(pts, sel):
